@@ -167,7 +167,7 @@ Proof.
 Qed.
 
 Section World.
-Variables (inet4_ok inet6_ok netloc_ok : bytes -> bool).
+Variables (inet4_ok inet6_ok : bytes -> inet_res) (netloc_ok : bytes -> bool).
 Notation urlsplit := (urlsplit netloc_ok).
 Notation split_request_uri := (split_request_uri netloc_ok).
 Notation parse_request_line := (parse_request_line netloc_ok).
@@ -537,7 +537,7 @@ Proof.
 Qed.
 
 Section Final.
-Variables (inet4_ok inet6_ok netloc_ok : bytes -> bool).
+Variables (inet4_ok inet6_ok : bytes -> inet_res) (netloc_ok : bytes -> bool).
 Notation parse_request := (parse_request inet4_ok inet6_ok netloc_ok).
 
 Theorem environ_faithful_proof : forall c p reqno data r rest i e,
